@@ -28,14 +28,15 @@ impl IntoParallelSource for Range<u64> {
     type Iter = Range<u64>;
 
     fn generate_iterator(self, index: CoordUInt, peers: CoordUInt) -> Self::Iter {
-        let n = self.end - self.start;
-        let chunk_size = (n.saturating_add(peers - 1)) / peers;
-        let start = self.start.saturating_add(index * chunk_size);
-        let end = (start.saturating_add(chunk_size))
-            .min(self.end)
-            .max(self.start);
+        // an empty or reversed range yields nothing
+        let n = self.end.saturating_sub(self.start);
+        // ceil(n / peers), without overflowing near u64::MAX
+        let chunk_size = n / peers + u64::from(n % peers != 0);
+        // offsets from `self.start`, clamped to the length of the range
+        let start = index.saturating_mul(chunk_size).min(n);
+        let end = start.saturating_add(chunk_size).min(n);
 
-        start..end
+        (self.start + start)..(self.start + end)
     }
 }
 
@@ -45,17 +46,20 @@ macro_rules! impl_into_parallel_source_range {
             type Iter = Range<$t>;
 
             fn generate_iterator(self, index: CoordUInt, peers: CoordUInt) -> Self::Iter {
-                let index: i64 = index.try_into().unwrap();
-                let peers: i64 = peers.try_into().unwrap();
-                let n = self.end as i64 - self.start as i64;
-                let chunk_size = (n.saturating_add(peers - 1)) / peers;
-                let start = (self.start as i64).saturating_add(index * chunk_size);
-                let end = (start.saturating_add(chunk_size))
-                    .min(self.end as i64)
-                    .max(self.start as i64);
+                // an empty or reversed range yields nothing
+                if self.end <= self.start {
+                    return self.start..self.start;
+                }
+                // the length always fits the unsigned type of the same width
+                let n = self.end.abs_diff(self.start) as u64;
+                // ceil(n / peers), without overflowing
+                let chunk_size = n / peers + u64::from(n % peers != 0);
+                // offsets from `self.start`, clamped to the length of the range
+                let start = index.saturating_mul(chunk_size).min(n);
+                let end = start.saturating_add(chunk_size).min(n);
 
-                let (start, end) = (start.try_into().unwrap(), end.try_into().unwrap());
-                start..end
+                // `start + offset` is within `start..=end`, so the wrapping sum is exact
+                self.start.wrapping_add(start as $t)..self.start.wrapping_add(end as $t)
             }
         }
     };
